@@ -1,7 +1,8 @@
 ---------------------------- MODULE Mon_Singleton ----------------------------
 (* Property monitor for C36 on recorded executions of REAL goakt actor systems.  It   *)
 (* knows nothing about SpawnSingleton: the singleton actor itself reports PreStart     *)
-(* (start) and PostStop (stop) with its node and a unique instance number.             *)
+(* (start) and PostStop (stop) with its node and a unique instance number; the store    *)
+(* reports every RemoveActor with the node the removed record named (prev).             *)
 (* Every line is consumed; violations: <<"MISMATCH", "C36", line, what, id>>.          *)
 EXTENDS Integers, Sequences, FiniteSets, TLC, Json
 
@@ -21,6 +22,11 @@ Step ==
             /\ running' = running \cup {<<e.inst, e.n>>}
             /\ Check(Cardinality(running') <= 1, "two instances of the singleton are running in the cluster at the same time", e.id)
             /\ UNCHANGED ended
+       [] e.ev = "op" /\ ~ended /\ e.op = "RemoveActor" ->
+            \* a record owned by a live survivor is never removed by a non-owner
+            /\ Check(~(e.prev # e.n /\ \E x \in running : x[2] = e.prev),
+                     "the registry record of a live singleton instance was removed by another node", e.key)
+            /\ UNCHANGED <<running, ended>>
        [] e.ev = "stop" /\ ~ended ->
             /\ running' = {x \in running : x[1] # e.inst}
             /\ UNCHANGED ended
